@@ -61,12 +61,12 @@ func fatal(f string, a ...interface{}) {
 // ---------------------------------------------------------------- aggregation
 
 type rkey struct {
-	f                      string
+	p, f                   string
 	sb, sl, sc, eb, el, ec int
 }
 
-func rk(r hcl.Range) rkey {
-	return rkey{r.Filename, r.Start.Byte, r.Start.Line, r.Start.Column, r.End.Byte, r.End.Line, r.End.Column}
+func rk(p string, r hcl.Range) rkey {
+	return rkey{p, r.Filename, r.Start.Byte, r.Start.Line, r.Start.Column, r.End.Byte, r.End.Line, r.End.Column}
 }
 
 type Agg struct {
@@ -122,7 +122,11 @@ func (a *Agg) Add(q Q, o Outcome) {
 		if r.IsPos {
 			continue
 		}
-		k := rk(r.R)
+		rp := r.Path
+		if rp == "" {
+			rp = q.Path
+		}
+		k := rk(rp, r.R)
 		if _, ok := a.Ranges[k]; !ok {
 			a.Ranges[k] = r.Tag
 		}
@@ -163,7 +167,7 @@ func (a *Agg) Event(path, file string) Event {
 	ev["panics"] = ps
 	rs := make([][]interface{}, 0, len(a.Ranges))
 	for k, tag := range a.Ranges {
-		rs = append(rs, []interface{}{k.f, k.sb, k.sl, k.sc, k.eb, k.el, k.ec, tag})
+		rs = append(rs, []interface{}{k.f, k.sb, k.sl, k.sc, k.eb, k.el, k.ec, tag, k.p})
 	}
 	sort.Slice(rs, func(i, j int) bool { return fmt.Sprint(rs[i]...) < fmt.Sprint(rs[j]...) })
 	ev["rs"] = rs
